@@ -124,7 +124,14 @@ func GetRules() []Rule {
 	updateMux.RUnlock()
 	ret := make([]Rule, 0, len(rules))
 	for _, rule := range rules {
-		ret = append(ret, *rule)
+		// A copy all the way down: the circuit breaking part is held by pointer, and a caller that
+		// edits what it got must not edit the rule in force (node breakers are built from it).
+		cp := *rule
+		if rule.Rule != nil {
+			cbRule := *rule.Rule
+			cp.Rule = &cbRule
+		}
+		ret = append(ret, cp)
 	}
 	return ret
 }
